@@ -28,6 +28,35 @@ def add_op(rng, res, swarm):
     return op
 
 
+def independent_siblings(universe, res, m: Model, rng, limit=2):
+    """Other resources that may share a collection with *res* whatever the directory order:
+    nothing of them installed yet, no lexicon of one extends a lexicon of another package,
+    every extension's base already installed or inside its own package."""
+    out = []
+    taken = set(res['lexicons'])
+
+    def self_contained(r):
+        for sp in r['lexicons']:
+            b = m.idx[sp].base
+            if b is not None and b not in m.installed:
+                return False      # (a base inside the same file is skipped anyway)
+        return True
+    if not self_contained(res):
+        return []
+    for r in universe['resources']:
+        if r['name'] == res['name'] or set(r['lexicons']) & taken:
+            continue
+        if any(sp in m.installed for sp in r['lexicons']) or not self_contained(r):
+            continue
+        if any(m.idx[sp].base in taken for sp in r['lexicons']) or \
+                any(m.idx[sp].base in r['lexicons'] for sp in taken):
+            continue
+        if rng.random() < 0.7:
+            out.append(r)
+            taken |= set(r['lexicons'])
+    return out[:limit]
+
+
 def remove_specs(rng, model: Model, universe, bare_ok=True):
     """Candidate removal specifiers given what is installed."""
     inst = model.installed
@@ -65,7 +94,15 @@ def history(rng: random.Random, universe, n_ops, swarm, model: Model | None = No
                 cands = [res for res in resources
                          if set(res['lexicons']) & set(last_removed)] or cands
             res = rng.choice(cands)
-            ops.append(add_op(rng, res, swarm))
+            op = add_op(rng, res, swarm)
+            if swarm.get('routes', True) and rng.random() < 0.12:
+                sibs = independent_siblings(universe, res, m, rng)
+                if sibs:
+                    op['route'] = rng.choice(['col', 'col', 'tar-col', 'txz-col'])
+                    op['siblings'] = [r['name'] for r in sibs]
+                    for r in sibs:
+                        m.add_resource(r['lexicons'])
+            ops.append(op)
             m.add_resource(res['lexicons'])
             last_removed = None
         elif r < 0.55:
